@@ -19,10 +19,12 @@ use std::time::Duration;
 const INF: usize = 1_000_000;
 
 fn payload(idx: usize, ts: u64) -> Vec<(&'static str, Value)> {
-    match (idx as u64 + ts) % 4 {
+    match (idx as u64 + ts) % 5 {
         0 => vec![("v", Value::Integer(ts as i64 + 1))],
         1 => vec![("v", Value::Number(ts as f64 + 0.5))],
         2 => vec![("v", Value::String("x".to_string()))],
+        // a string that looks like a number is still not a numeric field
+        3 => vec![("v", Value::String("40".to_string()))],
         _ => vec![],
     }
 }
@@ -306,8 +308,8 @@ impl System for WinSys {
             exp.entry("Min").or_default().push(format!("{:?}", vals.iter().cloned().fold(None, |a: Option<f64>, x| Some(a.map_or(x, |m| m.min(x))))));
             exp.entry("Max").or_default().push(format!("{:?}", vals.iter().cloned().fold(None, |a: Option<f64>, x| Some(a.map_or(x, |m| m.max(x))))));
         }
-        // only when the cap cannot make two constructions differ
-        if self.cap >= self.offered.len() {
+        // (every construction from the same events applies the cap identically, so this holds with a binding cap too)
+        {
             for (f, name) in folds {
                 let mut got: Vec<String> = f().into_iter().map(|x| format!("{:?}", x)).collect();
                 let mut e = exp.get(name).cloned().unwrap_or_default();
